@@ -1,7 +1,7 @@
 (* C06 — A layer tarball faithfully and canonically serialises the built
    filesystem.  Property theorems only; proofs are in Proofs/TarProofs.v. *)
 From Apko Require Import Base.Prelude Model.Tar Spec.TarSpec Proofs.TarProofs Proofs.TarRoundtrip Proofs.TarOrder Proofs.TarLinks.
-From Apko Require Import Generated.C06Tar Model.TarBytes Spec.TarBytesSpec Proofs.TarBytesBlock Proofs.TarBytesProofs.
+From Apko Require Import Generated.C06Tar Model.TarBytes Spec.TarBytesSpec Proofs.TarBytesBlock Proofs.TarBytesProofs Proofs.TarBytesLayer.
 From Coq Require Import Sorting.Sorted.
 Open Scope string_scope. Open Scope list_scope.
 
@@ -257,3 +257,44 @@ Theorem c06_bytes_envelope_boundary :
   write_archive [(ex_hdr "f" 0 0 [(lit "SCHILY.xattr.user.a=b", lit "c")], lit "ab")] = Err.
 Proof. split; [exact zero_time_not_roundtrip | exact equals_in_key_refused]. Qed.
 Print Assumptions c06_bytes_envelope_boundary.
+
+(* c06_bytes_entries — from the bytes back to the entries of Model/Tar.v: for
+   every list of entries inside [entry_okb] (the member made of the entry is in
+   the byte envelope; path components non-empty without '/'; user / group names
+   not empty; the content id of the body is the entry's) the members read from
+   the stream written for them stand for exactly those entries, as the tar
+   writer leaves them ([tar_written]: whole seconds). *)
+Theorem c06_bytes_entries : forall cs cid_of es, forallb (entry_okb cs cid_of) es = true ->
+  exists bs ms, write_archive (map (member_of_entry cs) es) = Ok bs /\ read_archive bs = Ok ms /\
+    map (entry_of_member cid_of) ms = map (fun e => Some (tar_written e)) es.
+Proof. exact entries_bytes_roundtrip. Qed.
+Print Assumptions c06_bytes_entries.
+
+Example c06_bytes_entries_example :
+  forallb (entry_okb [(7%N, lit "abc")] (fun b => if is_nil b then 0%N else 7%N)) ex_entries = true.
+Proof. exact ex_entries_ok. Qed.
+
+(* c06_layer_bytes_faithful — the whole chain at the level of bytes: for every
+   tree in the envelope of c06_extract_walk_links with whole-second times whose
+   walk lies in the byte envelope, the layer's tar stream [layer_bytes] (walk,
+   header synthesis with the PAX prefix of tarball.go, archive/tar's writer with
+   the Format walkFS leaves, the final Close) is read back by archive/tar's
+   reader as members that stand for entries which are Faithful to the tree:
+   extraction yields exactly the tree, paths strictly increasing, names from
+   passwd / group. *)
+Theorem c06_layer_bytes_faithful : forall ev cs cid_of f,
+  wfl_forest (has_hdr ev) f = true -> whole_seconds_forest f = true ->
+  forallb (entry_okb cs cid_of) (walk ev f) = true ->
+  exists bs ms, layer_bytes ev cs f = Ok bs /\ read_archive bs = Ok ms /\
+    map (entry_of_member cid_of) ms = map Some (emitted ev f) /\
+    Faithful (users ev) (groups ev) f (emitted ev f).
+Proof. exact layer_bytes_faithful. Qed.
+Print Assumptions c06_layer_bytes_faithful.
+
+Example c06_layer_bytes_faithful_example :
+  let cid_of := fun b : bytes => if is_nil b then 0%N else 9%N in
+  let m := {| m_mode := 493; m_uid := 0; m_gid := 0; m_mtime := 1700000000; m_mnsec := 0; m_xattrs := [("user.k", "v")]%string |} in
+  let f := [("bin"%string, Dir m [("a"%string, File m (LReg 9 2) None); ("b"%string, File m (LReg 9 2) (Some ["bin"; "a"]%string))])] in
+  wfl_forest (has_hdr env_allhdr) f = true /\ whole_seconds_forest f = true /\
+  forallb (entry_okb [(9%N, lit "hi")] cid_of) (walk env_allhdr f) = true.
+Proof. vm_compute. repeat split; reflexivity. Qed.
